@@ -128,9 +128,9 @@ def run_impl(line):
                 try:
                     if s[0] == 'setint': b[int(s[1])] = int(s[2]); w = None
                     elif s[0] == 'setslice':
-                        v = operand(s[4]); w = _Watch(v); b[slice(unoi(s[1]), unoi(s[2]), unoi(s[3]))] = v
+                        v = b if s[4] == 'self' else operand(s[4]); w = None if s[4] == 'self' else _Watch(v); b[slice(unoi(s[1]), unoi(s[2]), unoi(s[3]))] = v
                     elif s[0] == 'setlist':
-                        v = operand(s[2]); l = unil(s[1]); w = _Watch(v, l); b[l] = v
+                        v = b if s[2] == 'self' else operand(s[2]); l = unil(s[1]); w = _Watch(l) if s[2] == 'self' else _Watch(v, l); b[l] = v
                     elif s[0] == 'size': b.size = int(s[1]); w = None
                     elif s[0] == 'zext': b.zeroextend(int(s[1])); w = None
                     elif s[0] == 'sext': b.signextend(int(s[1])); w = None
@@ -310,7 +310,7 @@ def check_impl(line, res):
                 if v not in (0, 1) or not (-m <= i < m): err = True
                 else: nxt = list(cur); nxt[i] = v
             elif s[0] == 'setslice':
-                vb = ref_operand(s[4])
+                vb = list(cur) if s[4] == 'self' else ref_operand(s[4])
                 try: idx = list(range(m))[slice(unoi(s[1]), unoi(s[2]), unoi(s[3]))]
                 except ValueError: idx = None
                 if idx is None: err = True
@@ -323,7 +323,7 @@ def check_impl(line, res):
                         return None          # value does not fit: outside the property; nothing more is claimed (code<->model continues)
                     else: err = True
             elif s[0] == 'setlist':
-                vb = ref_operand(s[2]); l = unil(s[1])
+                vb = (list(cur) if s[2] == 'self' else ref_operand(s[2])); l = unil(s[1])
                 if len(l) != len(vb) or any(not (-m <= j < m) for j in l): err = True
                 else:
                     nxt = list(cur)
@@ -533,7 +533,39 @@ def py_lines(tier):
         yield 'py.bitlength %d' % n, 'py.bitlength'
 
 
+def self_lines(tier, rng):
+    """the right-hand side is the target object itself: `b[::-1] = b`, `b[perm] = b`, `b[:] = b`, `b[::2] = b` (length mismatch) …"""
+    import itertools
+    widths = range(0, 9) if tier == 'quick' else range(0, 13)
+    for n in widths:
+        vals = range(1 << n) if n <= (5 if tier == 'quick' else 7) else sorted({0, 1, (1 << n) - 1, 1 << (n - 1)} | {rng.getrandbits(n) for _ in range(12)})
+        for x in vals:
+            A = bt(n, x)
+            for (s_, e_, st_) in ((None, None, -1), (None, None, None), (None, None, 1), (0, n, 1), (None, None, 2), (n - 1, None, -1), (None, None, -2)):
+                yield 'bits.seq %s | setslice %s %s %s self' % (A, oi(s_), oi(e_), oi(st_)), 'setslice.self'
+            perms = [list(range(n))[::-1], list(range(1, n)) + [0] if n else [], [(i * 3) % n for i in range(n)] if n else []]
+            perms += [rng.sample(range(n), n) for _ in range(2)]
+            for pm in perms:
+                yield 'bits.seq %s | setlist %s self' % (A, il(pm)), 'setlist.self'
+            if n: yield 'bits.seq %s | setlist %s self | setslice None None -1 self' % (A, il(list(range(n))[::-1])), 'setlist.self'
+    for n in (31, 32, 33, 63, 64, 65, 127, 128, 129):
+        for _ in range(3):
+            A = bt(n, rng.getrandbits(n))
+            yield 'bits.seq %s | setslice None None -1 self' % A, 'setslice.self'
+            yield 'bits.seq %s | setlist %s self' % (A, il(rng.sample(range(n), n))), 'setlist.self'
+
+
 def cases(tier, rng):
+    if tier != 'search': yield from self_lines(tier, random_copy(rng))
+    yield from _cases(tier, rng)
+
+
+def random_copy(rng):
+    import random
+    r = random.Random(); r.setstate(rng.getstate()); return r
+
+
+def _cases(tier, rng):
     if tier == 'search':
         while True:
             m, n = rng.randrange(0, 12), rng.randrange(0, 12)
